@@ -102,3 +102,12 @@ Definition v_layout (v : ndview) (dt : dtype) (np_rows : list (list byte)) (impl
      && match out with Ok o => rf_check dt np_rows o | Err _ => false end).
 (* what the writer of the unchanged tree would leave for the same array (replay files only) *)
 Definition show_layout_v0 (v : ndview) : list byte * list byte := (recfile_write_view_v0 v, recfile_write_view v).
+
+(* ---- SFile._make_header against Model.make_header: the user's keys (dict order) carry the ids
+   1..n as values, _VERSION is -1 and _DTYPE is -2; the harness prints the header dict the real
+   _make_header built the same way (a value that is not equal to what it should be is 0) *)
+Definition idhdr (ks : list (list byte)) : hdict Z := combine ks (zseq 1 (length ks)).
+Definition pairs_eqb : list (list byte * Z) -> list (list byte * Z) -> bool :=
+  list_eqb (fun a b => bytes_eqb (fst a) (fst b) && (snd a =? snd b)).
+Definition v_mkheader (ukeys : list (list byte)) (impl : list (list byte * Z)) : Z :=
+  if pairs_eqb (make_header Z (fun _ => -1) (fun _ => -2) (idhdr ukeys) []) impl then 0 else 1.
